@@ -92,6 +92,7 @@ def run(ch, build, hooks=(hook,), prop="C10"):
         hist.replay(ch, scns, outs, hooks, prop.lower())
         ch.extra["scripts_%s" % ("session" if session else "sessionless")] = len(scripts)
     if prop == "C10":
+        wrappers(ch)
         udp_histories(ch, hooks)
         real_udp_loss(ch, started)
     ch.extra["depth"] = depth
@@ -134,6 +135,63 @@ def real_udp_loss(ch, started):
             ch.violation({"kind": "c10", "conn": rq["call"], "family": "real-udp-loss"},
                          {"request": rq, "result": res, "what": "after %d unanswered / temporary attempts the genuine answer must be returned "
                           "(expected %d transmissions; the context had %d ms)" % (rq["until"], rq["until"] + 1, rq["deadline_ms"])})
+
+
+WRAPPED = {   # typed helper -> the command it must be equivalent to
+    "GetSystemGUID": {"name": "getsystemguid"}, "GetChannelAuthenticationCapabilities": {"name": "authcaps", "p": [1, 14, 4]},
+    "DCMISupportedCapabilities": {"name": "dcmicaps", "p": [1]}, "DCMIMandatoryPlatformAttrs": {"name": "dcmicaps", "p": [2]},
+    "DCMIOptionalPlatformAttrs": {"name": "dcmicaps", "p": [3]}, "DCMIManageabilityAccessAttrs": {"name": "dcmicaps", "p": [4]},
+    "DCMIEnhancedSystemPowerStatisticsAttrs": {"name": "dcmicaps", "p": [5]},
+    "GetSessionInfo": {"name": "sessioninfo", "p": [0, 0, 0]}, "GetDeviceID": {"name": "getdeviceid"}, "GetChassisStatus": {"name": "getchassisstatus"},
+    "GetSDRRepositoryInfo": {"name": "getsdrrepoinfo"}, "GetSensorReading": {"name": "sensorreading", "p": [3, 0]},
+    "DCMIGetPowerReading": {"name": "powerreading", "p": [1, 0]}, "DCMIGetDCMISensorInfo": {"name": "dcmisensorinfo", "p": [1, 0x41, 0, 1]},
+}
+
+
+def wrappers(ch):
+    """the typed helpers (V2Session / V2Sessionless methods, the DCMI commanders) are thin: each returns exactly what
+    SendCommand and the command's response layer give for the same BMC, and an error when the BMC refuses"""
+    rng = ch.rng
+    caps = {"1": "010502" + "010f0f", "2": "010502" + "1234560708", "3": "010502" + "2040", "4": "010502" + "010203", "5": "010502" + "02" + "4182"}
+    scns = []
+    for k in range(3 if ch.quick() else 9):
+        su = hist.SUITES[(k * 4) % 9]
+        bmc = conn.default_bmc(seed=800 + k, suites=[[100, su[0], su[1], su[2]]], loose=True, dcmicaps=caps,
+                               guid=bytes(rng.randrange(256) for _ in range(16)).hex(),
+                               sensors={"3": bytes([rng.randrange(256), 0x40 | rng.randrange(32), rng.randrange(256)]).hex()},
+                               dcmisensors={"65": [rng.randrange(65536) for _ in range(rng.randrange(1, 6))]})
+        w = {"op": "wrappers", "cmd": {"name": "x", "p": [3, rng.randrange(6)]}}
+        direct = lambda cn, names: [{"op": "cmd", "conn": cn, "cmd": WRAPPED[n], "script": ["ok"], "wrapped": n} for n in names]
+        sl = [n for n in WRAPPED if n.startswith("DCMI") and "Get" not in n] + ["GetSystemGUID", "GetChannelAuthenticationCapabilities"]
+        scns.append({"bmc": bmc, "timeout_ms": 40, "steps":
+                     direct("sessionless", sl) + [dict(w, conn="sessionless")] + [dict(w, conn="sessionless", script=["cc:%d" % rng.choice([0xc1, 0xc9, 0xcc, 0xd4])] * 60, refused=True)] +
+                     [__import__("vlib.hs", fromlist=["x"]).open_step(suites=[su])] + direct("session", list(WRAPPED)) + [dict(w, conn="session")] +
+                     [dict(w, conn="session", script=["cc:%d" % rng.choice([0xc1, 0xc9, 0xcc, 0xd4, 0xff])] * 60, refused=True)]})
+    for scn, out in zip(scns, conn.run_scenarios(scns)):
+        seen = {}
+        for st, res in zip(scn["steps"], out["steps"]):
+            if st["op"] == "cmd" and st.get("wrapped"):
+                want = res["rsp"].replace(" ", ",") if res["err"] == "nil" and res["code"] == 0 else "err:other"
+                if st["wrapped"] == "GetSystemGUID" and want.startswith("ok,x"):
+                    want = want[4:]
+                seen[(st["conn"], st["wrapped"])] = want
+                continue
+            if st["op"] == "wrappers":
+                vals = dict(x.split("=", 1) for x in (res.get("value") or "").split(" ") if "=" in x)
+                ch.note_case("c10-wrappers", "%s|%s|%s" % (st["conn"], bool(st.get("refused")), scn["bmc"]["seed"]))
+                if res.get("panic"):
+                    ch.violation({"kind": "panic", "family": "wrappers"}, {"scenario": scn, "panic": res["panic"]}); continue
+                if st.get("refused"):
+                    bad = [n for n, v in vals.items() if not v.startswith("err:")]
+                    if bad or not vals:
+                        ch.violation({"kind": "c10", "family": "wrappers", "conn": st["conn"]}, {"scenario": scn, "values": vals,
+                                     "what": "the BMC refused every command with a permanent completion code, yet these helpers returned no error: %s" % bad})
+                else:
+                    for (cn, n), want in seen.items():
+                        if cn == st["conn"] and vals.get(n) != want:
+                            ch.violation({"kind": "c10", "family": "wrappers", "conn": cn, "helper": n},
+                                         {"scenario": scn, "what": "the typed helper returned something else than SendCommand + response layer for the same BMC",
+                                          "helper": vals.get(n), "command": want})
 
 
 def udp_histories(ch, hooks):
